@@ -11,13 +11,15 @@
  *     k      number of ranks          P,T  runtime_comm_mpi_am_posted/tested_requests
  *     D,R    runtime_comm_mpi_dynamic(_recv)_requests        ub   mpi_tag_ub (-1: MPI's)
  *     hseed,hide  the Testsome oracle: every non-null slot of every MPI_Testsome call is hidden
- *            (its completion is not reported by this call) with probability hide/1000
+ *            (its completion is not reported by this call) with probability hide/1000; hide = -1: exactly one
+ *            completion is withheld once (see MPI_Testsome below)
  *     maxlen registered message length of the user AM tags
  *   script tokens (blank separated):
  *     a<tag>:<dst>:<size>   send_am of <size> bytes (>= 24) on user tag <tag> to rank <dst>
  *     p<dst>:<size>         put  <size> bytes into a buffer of rank <dst>
  *     g<dst>:<size>         get  <size> bytes from a buffer of rank <dst>
  *     w<n>                  n calls of ce->progress
+ *     z<ms>                 sleep (no MPI call)
  *     a trailing '!' on a/p/g defers the operation: it is issued from inside the next
  *     harness callback that runs on this rank (or at the end of the script)
  *
@@ -88,10 +90,17 @@ static int same(const unsigned char *b, size_t n, uint64_t key) {
 #define MAXDYN 8192
 static int tracing = 0;
 static MPI_Request pers[MAXTAGS][MAXP]; static int npers[MAXTAGS];
+static void *pbuf[MAXTAGS][MAXP];
 static long pseq_of[MAXTAGS][MAXP], pseq_next[MAXTAGS];
 static struct { MPI_Request h; char kind; long n; } dyn[MAXDYN]; static int ndyn;
 static long nisend, nirecv;
+/* data sends in the order the engine decided to make them (a put of this rank: at its handshake AM; the answer to a
+ * peer's get: when the GET handshake is reported).  A send that had to wait in the pending FIFO reaches MPI_Isend
+ * later; it is named after its place in this list, found again by (destination, tag). */
+static struct { int dst, tag, installed; } sissue[MAXDYN]; static int nsissue;
+static void send_issued(int dst, int tag) { if (nsissue < MAXDYN) { sissue[nsissue].dst = dst; sissue[nsissue].tag = tag; sissue[nsissue].installed = 0; nsissue++; } }
 static uint64_t hstate; static int hide_pm;
+static int hide_fired;
 static int dirty;   /* the harness issued a put/get since the last logged Testsome */
 /* queue of reported AM completions (tag, pseq), consumed by the user AM callback */
 static char snap[MAXSLOTS * 16];
@@ -117,7 +126,7 @@ static void dyn_del(MPI_Request r) {
 
 int MPI_Recv_init(void *buf, int count, MPI_Datatype dt, int src, int tag, MPI_Comm comm, MPI_Request *req) {
     int rc = PMPI_Recv_init(buf, count, dt, src, tag, comm, req);
-    if (tracing && tag >= 0 && tag < MAXTAGS && npers[tag] < MAXP) pers[tag][npers[tag]++] = *req;
+    if (tracing && tag >= 0 && tag < MAXTAGS && npers[tag] < MAXP) { pbuf[tag][npers[tag]] = buf; pers[tag][npers[tag]++] = *req; }
     return rc;
 }
 static void posted(MPI_Request r) {
@@ -143,7 +152,11 @@ int MPI_Isend(const void *buf, int count, MPI_Datatype dt, int dst, int tag, MPI
     int rc = PMPI_Isend(buf, count, dt, dst, tag, comm, req);
     if (tracing) {
         for (int k = 0; k < ndyn; k++) if (dyn[k].h == *req) { PMPI_Grequest_start(gq_query, gq_free, gq_cancel, NULL, req); PMPI_Grequest_complete(*req); break; }
-        dyn_add(*req, 's', nisend++);
+        long n = -1;
+        for (int k = 0; k < nsissue; k++) if (!sissue[k].installed && sissue[k].dst == dst && sissue[k].tag == tag) { sissue[k].installed = 1; n = k; break; }
+        if (n < 0) n = 100000 + nisend;      /* a send the recording did not see coming */
+        nisend++;
+        dyn_add(*req, 's', n);
     }
     return rc;
 }
@@ -154,7 +167,10 @@ int MPI_Irecv(void *buf, int count, MPI_Datatype dt, int src, int tag, MPI_Comm 
 }
 int MPI_Send(const void *buf, int count, MPI_Datatype dt, int dst, int tag, MPI_Comm comm) {
     /* handshake AMs of put (tag 1) and get (tag 0) start with the MPI tag the engine allocated */
-    if (tracing && (tag == 0 || tag == 1) && count >= (int)sizeof(int)) L("X %d\n", *(const int *)buf);
+    if (tracing && (tag == 0 || tag == 1) && count >= (int)sizeof(int)) {
+        L("X %d\n", *(const int *)buf);
+        if (tag == 1) send_issued(dst, *(const int *)buf);
+    }
     return PMPI_Send(buf, count, dt, dst, tag, comm);
 }
 int MPI_Testsome(int incount, MPI_Request reqs[], int *outcount, int idx[], MPI_Status st[]) {
@@ -168,6 +184,23 @@ int MPI_Testsome(int incount, MPI_Request reqs[], int *outcount, int idx[], MPI_
         tmp[i] = reqs[i];
         if (hide_pm > 0 && reqs[i] != MPI_REQUEST_NULL && (int)(sm64(&hstate) % 1000) < hide_pm) tmp[i] = MPI_REQUEST_NULL;
     }
+    if (hide_pm == -1 && !hide_fired) {
+        /* scripted thinning, once: two receives of one user tag are complete, their messages come from two different
+         * processes; the one in the lower slot is not reported by this call (legal: MPI orders neither the completion
+         * nor the notification of messages of different sources) */
+        for (int i = 0; i < incount && !hide_fired; i++) {
+            int ti, ki, fi = 0; MPI_Status si;
+            if (!pers_find(reqs[i], &ti, &ki) || ti < 7) continue;
+            PMPI_Request_get_status(reqs[i], &fi, &si);
+            if (!fi) continue;
+            for (int j = i + 1; j < incount; j++) {
+                int tj, kj, fj = 0; MPI_Status sj;
+                if (!pers_find(reqs[j], &tj, &kj) || tj != ti) continue;
+                PMPI_Request_get_status(reqs[j], &fj, &sj);
+                if (fj && sj.MPI_SOURCE != si.MPI_SOURCE) { tmp[i] = MPI_REQUEST_NULL; hide_fired = 1; L("H %d\n", i); break; }
+            }
+        }
+    }
     int rc = PMPI_Testsome(incount, tmp, outcount, idx, st);
     if (*outcount == MPI_UNDEFINED) *outcount = 0;      /* every active request was hidden */
     if (*outcount > 0 || dirty) {
@@ -178,6 +211,7 @@ int MPI_Testsome(int incount, MPI_Request reqs[], int *outcount, int idx[], MPI_
             int i = idx[j], t, k;
             L(" %d:%s", i, names[i]);
             if (pers_find(reqs[i], &t, &k)) {
+                if (t == 0) send_issued(st[j].MPI_SOURCE, *(int *)pbuf[0][k]);   /* GET handshake: the engine will send */
                 repq[repq_t].tag = t; repq[repq_t].pseq = pseq_of[t][k]; repq_t = (repq_t + 1) % (MAXSLOTS * 4);
             } else dyn_del(reqs[i]);
             reqs[i] = tmp[i];
@@ -212,13 +246,15 @@ static int am_cb(parsec_comm_engine_t *e, parsec_ce_tag_t tag, void *msg, size_t
     L("c\n");
     long pseq = -1;
     while (repq_h != repq_t) { int t = repq[repq_h].tag; long p = repq[repq_h].pseq; repq_h = (repq_h + 1) % (MAXSLOTS * 4); if (t == (int)tag) { pseq = p; break; } }
+    /* a callback may send before it has finished reading its message: the deferred operation (if any)
+     * goes first, the bytes are checked afterwards */
+    run_deferred_one();
     int32_t h[6] = { -1, -1, -1, -1, -1, -1 };
     if (msg_size >= HDR) memcpy(h, msg, HDR);
     int ok = (msg_size >= HDR) && h[0] == src && h[1] == (int)tag && h[3] == (int)msg_size && h[5] == me
              && same((unsigned char *)msg + HDR, msg_size - HDR, ((uint64_t)h[0] << 48) ^ ((uint64_t)h[1] << 40) ^ ((uint64_t)(uint32_t)h[4] << 8) ^ (uint64_t)me);
     L("am %d %d %d %ld %d %ld %d\n", (int)tag, src, h[4], (long)msg_size, ok, pseq, h[2]);
     got_am++; records++;
-    run_deferred_one();
     L("e\n");
     return 1;
 }
@@ -290,6 +326,7 @@ static void do_op(op_t *o) {
 }
 
 static void on_alarm(int s) { (void)s; flush_log("TIMEOUT alarm"); _exit(3); }
+static void on_term(int s) { (void)s; flush_log("KILLED (another rank gave up)"); _exit(4); }
 
 static int parse_case(char *l) {
     long v[16]; char *p = l;
@@ -312,7 +349,7 @@ static int parse_case(char *l) {
             else if (o.kind == 'p' || o.kind == 'g') { if (sscanf(tok + 1, "%d:%ld", &o.dst, &o.size) != 2) return 0;
                                  if (o.dst < 0 || o.dst >= K || o.size < 0) return 0;
                                  o.xfer = nxf; xf[nxf].kind = o.kind; xf[nxf].origin = r; xf[nxf].target = o.dst; xf[nxf].size = o.size; nxf++; }
-            else if (o.kind == 'w') { o.n = atol(tok + 1); }
+            else if (o.kind == 'w' || o.kind == 'z') { o.n = atol(tok + 1); }
             else return 0;
             /* expectations are only used to decide when this rank may stop progressing */
             if (o.kind == 'a' && o.dst == me) exp_am++;
@@ -337,7 +374,8 @@ int main(int argc, char **argv) {
     for (int i = 0; i <= want; i++) l = hc_next(f);
     if (!l || !parse_case(l) || K != world) { flush_log("bad case"); MPI_Finalize(); return 0; }
     signal(SIGALRM, on_alarm);
-    alarm(100);
+    signal(SIGTERM, on_term);
+    alarm(150);
 
     char b[64];
     snprintf(b, sizeof b, "%d", P); setenv("PARSEC_MCA_runtime_comm_mpi_am_posted_requests", b, 1);
@@ -389,6 +427,7 @@ int main(int argc, char **argv) {
     for (int i = 0; i < nops; i++) {
         op_t *o = &ops[i];
         if (o->kind == 'w') { for (long n = 0; n < o->n; n++) ce->progress(ce); continue; }
+        if (o->kind == 'z') { usleep(1000 * o->n); continue; }
         if (o->defer) { deferred[ndef++] = i; continue; }
         do_op(o);
     }
@@ -403,7 +442,7 @@ int main(int argc, char **argv) {
         if (complete && !announced) { PMPI_Ibarrier(MPI_COMM_WORLD, &bar); announced = 1; }
         if (announced) PMPI_Test(&bar, &done, MPI_STATUS_IGNORE);
         if (records != last) { last = records; tlast = time(NULL); }
-        else if (!announced && time(NULL) - tlast > 15) {
+        else if (!announced && time(NULL) - tlast > 40) {
             char s[256];
             snprintf(s, sizeof s, "TIMEOUT am %ld/%ld pl %ld/%ld pr %ld/%ld gl %ld/%ld gr %ld/%ld", got_am, exp_am, got_pl, exp_pl,
                      got_pr, exp_pr, got_gl, exp_gl, got_gr, exp_gr);
